@@ -288,3 +288,9 @@ def run(F, rep):
                 rep.check(g.name in ('update', 'AnnotatorImpl', 'Annotator'), 'C13.H1', '%s|mHash' % g.short, g.where(m_), '%s stores the hash although it does not rebuild the index' % g.short, 'written by %s' % g.name)
     if n_h < 1:
         raise AnalysisBroken('C13.H1: no writer of AnnotatorImpl::mHash found')
+
+    # ------------------------------------------------------------------ A: flags gathered over loops
+    from engines import rule_accumulators
+    rule_accumulators(F, rep, 'C13.A1', lambda g: g.file.endswith('/annotator.cpp'), 2, 'annotator.cpp', 'whether an entry was already recorded must not depend on the last entry compared')
+
+
